@@ -180,6 +180,11 @@ private theorem completeValue_agree (s : SchemaD) (e eS : String → Path → Li
       cases kindOf s n with
       | none => simp
       | some k => cases k <;> simp [he]
+    | raise vs msg ext =>
+      simp only [completeValue, completeValueS, hms]
+      cases kindOf s n with
+      | none => simp
+      | some k => cases k <;> simp [he]
     | obj rt =>
       simp only [completeValue, completeValueS, hms]
       cases kindOf s n with
@@ -196,6 +201,10 @@ private theorem completeValue_agree (s : SchemaD) (e eS : String → Path → Li
     | null => simp [completeValue, completeValueS]
     | leaf j => cases j <;> simp [completeValue, completeValueS]
     | obj rt => simp [completeValue, completeValueS]
+    | raise vs msg ext =>
+      simp only [completeValue, completeValueS]
+      rw [completeList_agree _ _ (fun p v => ih p v) path vs 0]
+      cases completeListS (completeValueS s eS nodes t) path 0 vs <;> rfl
     | list vs =>
       simp only [completeValue, completeValueS]
       rw [completeList_agree _ _ (fun p v => ih p v) path vs 0]
@@ -260,7 +269,7 @@ theorem exec_refines_spec_spreadfree_exact (s : SchemaD) (doc : Doc) (vars : Var
     | ok p =>
       obtain ⟨g, seen'⟩ := p
       obtain ⟨_, hg⟩ := hret g seen' hc
-      simp only [executeGroups_agree s w _ _ (fun rt p sels h => ih rt p sels h) parent path g hg]
+      simp only [catchDirective_ok, executeGroups_agree s w _ _ (fun rt p sels h => ih rt p sels h) parent path g hg]
 
 /-! ### the whole difference between model and specification is confined to `collect_fields` -/
 
@@ -326,7 +335,7 @@ theorem exec_refines_spec_of_collect (s : SchemaD) (doc : Doc) (vars : Vars) (w 
       | error e2 => simp [h1, h2, Except.map] at h
       | ok p2 =>
         simp [h1, h2, Except.map] at h
-        simp only [h, executeGroups_agree' s w _ _ (fun rt p sels => ih rt p sels) parent path p2.1]
+        simp only [h, catchDirective_ok, executeGroups_agree' s w _ _ (fun rt p sels => ih rt p sels) parent path p2.1]
 
 /-- Earlier formulation of the full statement with `eraseDups`; the statement actually PROVED for all documents with ranked
     fragments is `ExecRefinesSpecUpToLocations` (`exec_refines_spec`, `Props/C04_spreads.lean`), where "up to duplicate
